@@ -417,7 +417,14 @@ def _maybe_attach_shm(
     except (ValueError, UnicodeDecodeError):
         _logger.warning("Ignoring malformed SHM metadata: name=%r, size=%r", shm_name_bytes, shm_size_bytes)
         return None
-    return ShmSegment.attach(shm_name, shm_size, track=False)
+    try:
+        return ShmSegment.attach(shm_name, shm_size, track=False)
+    except Exception:
+        # The name is client-supplied.  A segment that does not exist, is not a
+        # vgi_rpc segment (bad magic / size) or cannot be mapped must not take
+        # the connection down: carry on without one, as for malformed values.
+        _logger.warning("Ignoring SHM segment %r that cannot be attached", shm_name, exc_info=True)
+        return None
 
 
 class _ConnectionShm:
@@ -869,6 +876,7 @@ class RpcServer:
                     self._external_config,
                     shm=static_shm or cached_shm,
                     attach_shm=lambda md: _maybe_attach_shm(md, self._transport_kind),
+                    contain_decode_errors=True,
                 )
             except pa.ArrowInvalid as exc:
                 with contextlib.suppress(BrokenPipeError, OSError):
